@@ -7,7 +7,8 @@ import PtnModel.Proofs.QrExample
 
 `sxA = [[0, 12, 0], [3, 0, 4]]` with the unsorted charges `[1, 0]`, `[0, 1, 0]`; the blocks handed to the kernel are
 `[[3, 4]]` (charge 0) and `[[12]]` (charge 1); `sxDsvd` is an exact SVD of both; the concatenated spectrum is
-`[5, 12]` with norm `13`.
+`[5, 12]` with norm `13`.  `exZ` (the `2 × 3` zero matrix of `QrExample`) with the same, shared, charges is the
+input of the zero-matrix branch.
 -/
 namespace Ptn.BondOps
 open Finset
@@ -64,5 +65,13 @@ theorem sx_shared : intersect1d [1, 0] [0, 1, 0] = [0, 1] := by decide
 
 theorem sx_kept0 : keptIdx (fun _ => (13 : ℚ)) (fun _ => [0, 1]) sxDsvd sxA [1, 0] [0, 1, 0] 0 = [0, 1] := by
   decide +kernel
+
+theorem sx_anyNZ : AnyNZ sxA := ⟨0, 1, by decide, by decide, by decide +kernel⟩
+
+/-- the `2 × 3` zero matrix with the SHARED charges `[1, 0]`, `[0, 1, 0]` is admissible input -/
+theorem sz_input : QRInput exZ [1, 0] [0, 1, 0] :=
+  ⟨rfl, rfl, by decide, by decide, fun _ _ _ _ h => absurd rfl h⟩
+
+theorem sz_zero : ¬ AnyNZ exZ := (not_anyNZ_iff exZ).2 fun _ _ _ _ => rfl
 
 end Ptn.BondOps
